@@ -361,6 +361,20 @@ func visitInstr(fr *frame, instr ssa.Instruction) continuation {
 			a := (*x).(array)
 			fr.boundsCheck(idx, len(a), "index")
 			fr.env[instr] = &a[asInt64(fr.concretizeInt(idx))]
+		case symBytes:
+			// a string-backed byte slice indexed element-wise: materialise the characters (reads only:
+			// a store through the returned address does not reach the slice)
+			s := normStr(x.s)
+			if sa, ok := s.(symStr); ok {
+				s = fr.strAtoB(sa)
+			}
+			cs, ok := toB(s)
+			if !ok {
+				panic(unsupported(fmt.Sprintf("IndexAddr on byte slice backed by %T", s)))
+			}
+			elems := append([]value{}, cs...)
+			fr.boundsCheck(idx, len(elems), "index")
+			fr.env[instr] = &elems[asInt64(fr.concretizeInt(idx))]
 		default:
 			panic(fmt.Sprintf("unexpected x type in IndexAddr: %T", x))
 		}
